@@ -265,7 +265,7 @@ static void sub_exhaustive() {
 }
 
 static void sub_random() {
-    long N = vf::tier(40, 400);
+    long N = vf::tier(80, 500);
     for (long idx = 0; idx < N; ++idx) {
         if (!vf::selected("random", idx)) continue;
         Rng r(vf::case_seed("random", idx)); vfm::seed_delays(vf::case_seed("random", idx), g_rank);
